@@ -87,7 +87,7 @@ func (c *c20) op(s *c20sess, rec *appencryption.DataRowRecord, recName string, p
 		}
 	}
 	c.r.Count("ops", 1)
-	cached := c.cfg.IKCached() && c.cfg.CacheSK
+	cached := c.cfg.CacheIK && c.cfg.CacheSK
 	lk := s.scope + "|" + ikid
 	last, seen := c.lastRead[lk]
 	c.logf("%s %q scope=%s repeat=%v ms=%d kms=%d readsIK=%d sinceLastRead=%s", kind, s.part, s.scope, repeat, len(calls), len(kms), readsOfIK, now.Sub(last))
@@ -107,7 +107,7 @@ func (c *c20) op(s *c20sess, rec *appencryption.DataRowRecord, recName string, p
 				c.violate("c20-store-on-refresh", "refresh after the interval wrote to the metastore: %v", calls)
 			}
 		}
-	case !c.cfg.IKCached() && !c.cfg.CacheSK:
+	case !c.cfg.CacheIK && !c.cfg.CacheSK:
 		c.r.Count("nocache_ops", 1)
 		if readsOfIK == 0 {
 			c.violate("c20-nocache-without-load", "caching disabled but %s performed no read of the key's record", kind)
@@ -159,6 +159,11 @@ func TestC20(t *testing.T) {
 	c = base
 	c.CacheIK, c.CacheSK = false, false
 	cfgs = append(cfgs, namedCfg{"no-cache", c})
+	// WithNoCache combined with WithSharedIntermediateKeyCache: the policy documents the shared-cache option as
+	// ignored when intermediate-key caching is disabled
+	c = base
+	c.CacheIK, c.CacheSK, c.SharedIK, c.IKCap = false, false, true, 100
+	cfgs = append(cfgs, namedCfg{"no-cache+shared-ik-option", c})
 
 	nSeeds := ev.Pick(4, 120)
 	for _, nc := range cfgs {
